@@ -551,6 +551,14 @@ func (P *Program) genVC(con *Contract) (*FuncResult, *VC) {
 		_ = res
 		f.curReach = "true"
 		for i, e := range con.Ensures {
+			if os.Getenv("GOVC_SPLIT_RETURNS") != "" {
+				// diagnosis only: one obligation per return site
+				for k, r := range f.rets {
+					t := implies(r.reach, f.evalClause(e, r.st, f.entry, r.vals, nil))
+					vc.addObl(f, "post", fmt.Sprintf("ensures[%s]@ret%d:%s", clauseName(e, i), k, P.fset.Position(r.pos)), t, e.Src, fn.Pos())
+				}
+				continue
+			}
 			t := perReturn(e)
 			o := vc.addObl(f, "post", fmt.Sprintf("ensures[%s]", clauseName(e, i)), t, e.Src, fn.Pos())
 			_ = o
